@@ -16,6 +16,7 @@ import (
 	"go/types"
 	"os"
 	"path/filepath"
+	"regexp"
 	"sort"
 	"strings"
 
@@ -31,6 +32,8 @@ type IR struct {
 	A, B *IR
 	Call string // callee key (placeholder, expanded after summaries)
 	Pos  string
+	F    int  // field id (acc)
+	W    bool // write access
 }
 
 func skip() *IR { return &IR{Op: "skip"} }
@@ -62,7 +65,7 @@ func (x *IR) relevant() bool {
 		return false
 	}
 	switch x.Op {
-	case "lock", "unlock", "defer":
+	case "lock", "unlock", "defer", "acc":
 		return true
 	}
 	return (x.A != nil && x.A.relevant()) || (x.B != nil && x.B.relevant())
@@ -94,6 +97,11 @@ func (x *IR) lean() string {
 		return ".ret"
 	case "abort":
 		return ".abort"
+	case "acc":
+		if x.W {
+			return fmt.Sprintf("(.acc %d true)", x.F)
+		}
+		return fmt.Sprintf("(.acc %d false)", x.F)
 	}
 	return ".skip /- " + x.Op + " -/"
 }
@@ -170,7 +178,7 @@ func eqSt(a, b st) bool { return fmt.Sprint(a.held) == fmt.Sprint(b.held) && fmt
 
 func check(x *IR, s st) ([]outc, string) {
 	switch x.Op {
-	case "skip":
+	case "skip", "acc", "call":
 		return []outc{{s, "normal"}}, ""
 	case "lock":
 		if has(s.held, x.M) {
@@ -259,6 +267,60 @@ func check(x *IR, s st) ([]outc, string) {
 	return nil, "unknown IR node " + x.Op
 }
 
+func first(l []string, n int) []string {
+	if len(l) > n {
+		return append(append([]string{}, l[:n]...), fmt.Sprintf("… %d more", len(l)-n))
+	}
+	return l
+}
+
+// walk is `check` with a visitor called at access and call nodes with the state there (bad states stop the branch)
+func walk(x *IR, s st, visit func(*IR, st)) []outc {
+	switch x.Op {
+	case "acc", "call":
+		visit(x, s)
+		return []outc{{s, "normal"}}
+	case "seq":
+		var out []outc
+		for _, r := range walk(x.A, s, visit) {
+			if r.e != "normal" {
+				out = append(out, r)
+				continue
+			}
+			out = append(out, walk(x.B, r.s, visit)...)
+		}
+		return dedup(out)
+	case "ite":
+		return dedup(append(walk(x.A, s, visit), walk(x.B, s, visit)...))
+	case "loop":
+		rs := walk(x.A, s, visit)
+		out := []outc{{s, "normal"}}
+		for _, r := range rs {
+			if r.e == "normal" || r.e == fmt.Sprintf("cont:%d", x.L) {
+				continue
+			}
+			if r.e == fmt.Sprintf("brk:%d", x.L) {
+				out = append(out, outc{r.s, "normal"})
+			} else {
+				out = append(out, r)
+			}
+		}
+		return dedup(out)
+	case "block":
+		var out []outc
+		for _, r := range walk(x.A, s, visit) {
+			if r.e == fmt.Sprintf("brk:%d", x.L) {
+				out = append(out, outc{r.s, "normal"})
+			} else {
+				out = append(out, r)
+			}
+		}
+		return dedup(out)
+	}
+	r, _ := check(x, s)
+	return r
+}
+
 func dedup(xs []outc) []outc {
 	seen := map[string]bool{}
 	var out []outc
@@ -322,6 +384,20 @@ func lockOf(name string) int {
 	return id
 }
 
+var fieldID = map[string]int{}
+var fieldName = map[int]string{}
+var atomicFields = map[int]bool{}
+
+func fieldOf(name string) int {
+	if id, ok := fieldID[name]; ok {
+		return id
+	}
+	id := len(fieldID) + 1
+	fieldID[name] = id
+	fieldName[id] = name
+	return id
+}
+
 type fn struct {
 	key   string
 	pkg   string
@@ -342,6 +418,11 @@ var condLock = map[string]int{} // cond field key -> mutex id
 var repoDir string
 
 type tr struct {
+	localFns map[types.Object][]string // local variables of function type -> the library functions assigned to them
+	noSpawn  map[ast.Node]bool
+	writes map[ast.Node]bool     // selector nodes that are written by the enclosing statement
+	fresh  map[types.Object]bool // locals holding an object this function has just allocated
+	ctor   bool
 	pkg    *packages.Package
 	f      *fn
 	nlabel int
@@ -536,17 +617,56 @@ func (t *tr) calls(e ast.Node) *IR {
 				}
 			}
 			return true
+		case *ast.SelectorExpr:
+			if sel, ok := t.pkg.TypesInfo.Selections[x]; ok {
+				switch sel.Kind() {
+				case types.FieldVal:
+					if a := t.fieldAcc(x, sel); a != nil {
+						out = append(out, a)
+					}
+				case types.MethodVal:
+					// a method value outside call position (time.AfterFunc(d, x.redial), go-less callbacks): a root
+					if fobj, ok := sel.Obj().(*types.Func); ok && !t.noSpawn[x] {
+						spawned[funcKey(fobj)] = true
+					}
+				}
+			}
+			return true
 		case *ast.CallExpr:
+			// sync/atomic on a field: not a plain access
+			if se, ok := x.Fun.(*ast.SelectorExpr); ok {
+				if pk, ok := se.X.(*ast.Ident); ok {
+					if pn, ok := t.pkg.TypesInfo.Uses[pk].(*types.PkgName); ok && pn.Imported().Path() == "sync/atomic" && len(x.Args) > 0 {
+						if u, ok := x.Args[0].(*ast.UnaryExpr); ok && u.Op == token.AND {
+							if fs, ok := u.X.(*ast.SelectorExpr); ok {
+								if sel, ok := t.pkg.TypesInfo.Selections[fs]; ok && sel.Kind() == types.FieldVal {
+									atomicFields[fieldOf(t.fieldKey(sel))] = true
+									out = append(out, t.calls(fs.X))
+									for _, a := range x.Args[1:] {
+										out = append(out, t.calls(a))
+									}
+									return false
+								}
+							}
+						}
+					}
+				}
+			}
+			if id, ok := x.Fun.(*ast.Ident); ok && (id.Name == "delete" || id.Name == "copy") && len(x.Args) > 0 {
+				if _, isB := t.pkg.TypesInfo.Uses[id].(*types.Builtin); isB {
+					t.markWrite(x.Args[0])
+				}
+			}
 			// arguments first
 			for _, a := range x.Args {
 				out = append(out, t.calls(a))
 			}
 			if fl, ok := x.Fun.(*ast.FuncLit); ok {
 				// func(){…}() — runs here
-				sub := &tr{pkg: t.pkg, f: t.f, nlabel: t.nlabel + 100, labels: map[string][2]int{}}
+				sub := &tr{pkg: t.pkg, f: t.f, nlabel: t.nlabel + 100, labels: map[string][2]int{}, fresh: t.fresh, ctor: t.ctor}
 				body := sub.block(fl.Body)
 				t.nlabel = sub.nlabel
-				lbl := t.fresh()
+				lbl := t.freshLabel()
 				out = append(out, &IR{Op: "block", L: lbl, A: retTo(body, lbl)})
 				return false
 			}
@@ -554,7 +674,35 @@ func (t *tr) calls(e ast.Node) *IR {
 				out = append(out, &IR{Op: op, M: id, Pos: t.pos(x)})
 				return false
 			}
+			// once.Do(func(){…}): the literal runs here (or not at all)
+			if se, ok := x.Fun.(*ast.SelectorExpr); ok && se.Sel.Name == "Do" && len(x.Args) == 1 {
+				if tv, ok := t.pkg.TypesInfo.Types[se.X]; ok && typeKey(tv.Type) == "sync.Once" {
+					if fl, ok := x.Args[0].(*ast.FuncLit); ok {
+						// (the generic argument walk above registered it as a root; undo that)
+						t.nlit--
+						dk := fmt.Sprintf("%s$%d", t.f.key, t.nlit+1)
+						delete(fns, dk)
+						for i := len(order) - 1; i >= 0; i-- {
+							if order[i] == dk {
+								order = append(order[:i], order[i+1:]...)
+								break
+							}
+						}
+						sub := &tr{pkg: t.pkg, f: t.f, nlabel: t.nlabel + 100, labels: map[string][2]int{}, fresh: t.fresh, ctor: t.ctor, localFns: t.localFns}
+						body := sub.block(fl.Body)
+						t.nlabel = sub.nlabel
+						lbl := t.freshLabel()
+						out = append(out, &IR{Op: "ite", A: &IR{Op: "block", L: lbl, A: retTo(body, lbl)}, B: skip()})
+						return false
+					}
+				}
+			}
 			if se, ok := x.Fun.(*ast.SelectorExpr); ok {
+				if sel, has := t.pkg.TypesInfo.Selections[se]; has {
+					if fobj, ok := sel.Obj().(*types.Func); ok && mutatingRecv[funcKey(fobj)] {
+						t.markWrite(se.X) // l.opts.set(…): the method stores into the map held in the field
+					}
+				}
 				out = append(out, t.calls(se.X))
 				if sel, has := t.pkg.TypesInfo.Selections[se]; has {
 					if fobj, ok := sel.Obj().(*types.Func); ok {
@@ -565,6 +713,18 @@ func (t *tr) calls(e ast.Node) *IR {
 						}
 						if !types.IsInterface(sel.Recv()) {
 							out = append(out, &IR{Op: "call", Call: funcKey(fobj), Pos: t.pos(x)})
+						} else if impls := implementers(sel.Recv(), fobj.Name()); len(impls) > 0 {
+							// a call through a library interface: any implementation in the library may run
+							var alt *IR
+							for _, k := range impls {
+								c := &IR{Op: "call", Call: k, Pos: t.pos(x) + " (through " + typeKey(sel.Recv()) + ")"}
+								if alt == nil {
+									alt = c
+								} else {
+									alt = &IR{Op: "ite", A: c, B: alt}
+								}
+							}
+							out = append(out, alt)
 						}
 						return false
 					}
@@ -586,6 +746,12 @@ func (t *tr) calls(e ast.Node) *IR {
 				}
 				if fobj, ok := t.pkg.TypesInfo.Uses[id].(*types.Func); ok {
 					out = append(out, &IR{Op: "call", Call: funcKey(fobj), Pos: t.pos(x)})
+				} else if obj := t.pkg.TypesInfo.Uses[id]; obj != nil && len(t.localFns[obj]) > 0 {
+					var alt *IR = skip()
+					for _, k := range t.localFns[obj] {
+						alt = &IR{Op: "ite", A: &IR{Op: "call", Call: k, Pos: t.pos(x)}, B: alt}
+					}
+					out = append(out, alt)
 				}
 				return false
 			}
@@ -594,6 +760,141 @@ func (t *tr) calls(e ast.Node) *IR {
 		return true
 	})
 	return seqs(out...)
+}
+
+var syncTypes = map[string]bool{"sync.Mutex": true, "sync.RWMutex": true, "sync.Once": true, "sync.Cond": true, "sync.WaitGroup": true}
+
+// fieldKey: declaring struct type + field name (promoted fields are named by the struct that declares them)
+func (t *tr) fieldKey(sel *types.Selection) string {
+	typ := sel.Recv()
+	owner := typeKey(typ)
+	idxs := sel.Index()
+	for i, idx := range idxs {
+		for {
+			if p, ok := typ.Underlying().(*types.Pointer); ok {
+				typ = p.Elem()
+				continue
+			}
+			break
+		}
+		stt, ok := typ.Underlying().(*types.Struct)
+		if !ok {
+			break
+		}
+		if i == len(idxs)-1 {
+			owner = typeKey(typ)
+			if _, named := typ.(*types.Named); !named {
+				owner = typeKey(sel.Recv()) + ".<anon>"
+			}
+		}
+		typ = stt.Field(idx).Type()
+	}
+	return owner + "." + sel.Obj().Name()
+}
+
+func baseIdent(e ast.Expr) *ast.Ident {
+	for {
+		switch y := e.(type) {
+		case *ast.SelectorExpr:
+			e = y.X
+		case *ast.IndexExpr:
+			e = y.X
+		case *ast.ParenExpr:
+			e = y.X
+		case *ast.StarExpr:
+			e = y.X
+		case *ast.Ident:
+			return y
+		default:
+			return nil
+		}
+	}
+}
+
+func (t *tr) fieldAcc(x *ast.SelectorExpr, sel *types.Selection) *IR {
+	v, ok := sel.Obj().(*types.Var)
+	if !ok || t.ctor {
+		return nil
+	}
+	if syncTypes[typeKey(v.Type())] || strings.HasPrefix(typeKey(v.Type()), "sync/atomic.") {
+		return nil
+	}
+	if b := baseIdent(x); b != nil {
+		if obj := t.pkg.TypesInfo.Uses[b]; obj != nil && t.fresh[obj] {
+			return nil
+		}
+	}
+	if strings.HasPrefix(t.fieldKey(sel), ".Message.") {
+		return nil // messages follow an ownership discipline, not a lock (C17)
+	}
+	key := t.fieldKey(sel)
+	if v.Pkg() != nil && !strings.HasPrefix(v.Pkg().Path(), "go.nanomsg.org/mangos/v3") {
+		// a field of a struct type from another module (net.Dialer.KeepAlive …): which object it belongs to is given by
+		// the library field holding that struct
+		if px, ok := x.X.(*ast.SelectorExpr); ok {
+			if psel, ok := t.pkg.TypesInfo.Selections[px]; ok && psel.Kind() == types.FieldVal {
+				key = t.fieldKey(psel) + "." + v.Name()
+			}
+		}
+	}
+	return &IR{Op: "acc", F: fieldOf(key), W: t.writes[x], Pos: t.pos(x)}
+}
+
+// markWrite: the field (or the container held in a field) this expression assigns to
+func (t *tr) markWrite(e ast.Expr) {
+	for {
+		switch y := e.(type) {
+		case *ast.IndexExpr:
+			e = y.X
+			continue
+		case *ast.ParenExpr:
+			e = y.X
+			continue
+		case *ast.StarExpr:
+			e = y.X
+			continue
+		case *ast.SliceExpr:
+			e = y.X
+			continue
+		}
+		break
+	}
+	for {
+		se, ok := e.(*ast.SelectorExpr)
+		if !ok {
+			return
+		}
+		if t.writes == nil {
+			t.writes = map[ast.Node]bool{}
+		}
+		t.writes[se] = true
+		// x.a.b = v also changes the struct value held in x.a (when a holds a struct, not a pointer to one)
+		tv, ok := t.pkg.TypesInfo.Types[se.X]
+		if !ok {
+			return
+		}
+		if _, isStruct := tv.Type.Underlying().(*types.Struct); !isStruct {
+			return
+		}
+		e = se.X
+	}
+}
+
+func isAlloc(e ast.Expr) bool {
+	switch y := e.(type) {
+	case *ast.UnaryExpr:
+		if y.Op == token.AND {
+			_, ok := y.X.(*ast.CompositeLit)
+			return ok
+		}
+	case *ast.CompositeLit:
+		return true
+	case *ast.CallExpr:
+		if id, ok := y.Fun.(*ast.Ident); ok && (id.Name == "new" || id.Name == "make") {
+			return true
+		}
+	}
+	return false
 }
 
 // retTo turns `ret` inside an inlined literal into a break to its block
@@ -612,7 +913,7 @@ func retTo(x *IR, lbl int) *IR {
 	return x
 }
 
-func (t *tr) fresh() int { t.nlabel++; return t.nlabel }
+func (t *tr) freshLabel() int { t.nlabel++; return t.nlabel }
 
 // literal registers a function literal as a function of its own (goroutine body, callback, stored function value)
 func (t *tr) literal(fl *ast.FuncLit, root bool) string {
@@ -659,6 +960,59 @@ func (t *tr) stmt(s ast.Stmt) *IR {
 	case *ast.ExprStmt:
 		return t.calls(x.X)
 	case *ast.AssignStmt:
+		for _, e := range x.Lhs {
+			t.markWrite(e)
+		}
+		// fn = c.subscribe … fn(x): a local function variable called later in this function
+		if len(x.Lhs) == len(x.Rhs) {
+			for i, e := range x.Lhs {
+				id, ok := e.(*ast.Ident)
+				if !ok {
+					continue
+				}
+				obj := t.pkg.TypesInfo.Defs[id]
+				if obj == nil {
+					obj = t.pkg.TypesInfo.Uses[id]
+				}
+				v, ok := obj.(*types.Var)
+				if !ok || v.Parent() == nil || v.Parent() == v.Pkg().Scope() {
+					continue
+				}
+				if se, ok := x.Rhs[i].(*ast.SelectorExpr); ok {
+					if sel, ok := t.pkg.TypesInfo.Selections[se]; ok && sel.Kind() == types.MethodVal && !types.IsInterface(sel.Recv()) {
+						if fobj, ok := sel.Obj().(*types.Func); ok {
+							if t.localFns == nil {
+								t.localFns = map[types.Object][]string{}
+							}
+							if t.noSpawn == nil {
+								t.noSpawn = map[ast.Node]bool{}
+							}
+							t.localFns[obj] = append(t.localFns[obj], funcKey(fobj))
+							t.noSpawn[se] = true
+						}
+					}
+				}
+			}
+		}
+		if len(x.Lhs) == len(x.Rhs) {
+			for i, e := range x.Lhs {
+				if id, ok := e.(*ast.Ident); ok && isAlloc(x.Rhs[i]) {
+					obj := t.pkg.TypesInfo.Defs[id]
+					if obj == nil {
+						// plain assignment to a local declared earlier (var w *T … w = &T{…})
+						if v, ok := t.pkg.TypesInfo.Uses[id].(*types.Var); ok && v.Parent() != nil && v.Pkg() != nil && v.Parent() != v.Pkg().Scope() && !v.IsField() {
+							obj = v
+						}
+					}
+					if obj != nil {
+						if t.fresh == nil {
+							t.fresh = map[types.Object]bool{}
+						}
+						t.fresh[obj] = true
+					}
+				}
+			}
+		}
 		r := skip()
 		for _, e := range x.Rhs {
 			r = seq(r, t.calls(e))
@@ -686,6 +1040,7 @@ func (t *tr) stmt(s ast.Stmt) *IR {
 	case *ast.DeclStmt:
 		return t.calls(x)
 	case *ast.IncDecStmt:
+		t.markWrite(x.X)
 		return t.calls(x.X)
 	case *ast.SendStmt:
 		return seq(t.calls(x.Chan), t.calls(x.Value))
@@ -778,7 +1133,7 @@ func (t *tr) stmt(s ast.Stmt) *IR {
 		}
 		return seq(r, ite(t.block(x.Body), els))
 	case *ast.ForStmt:
-		l := t.fresh()
+		l := t.freshLabel()
 		if label != "" {
 			t.labels[label] = [2]int{l, l}
 		}
@@ -791,7 +1146,7 @@ func (t *tr) stmt(s ast.Stmt) *IR {
 		t.contT = t.contT[:len(t.contT)-1]
 		if post.Op != "skip" {
 			// continue runs the post statement: wrap the body in a block that `continue` leaves
-			bl := t.fresh()
+			bl := t.freshLabel()
 			body = seq(&IR{Op: "block", L: bl, A: contToBrk(body, l, bl)}, post)
 		}
 		var after *IR = skip()
@@ -803,7 +1158,7 @@ func (t *tr) stmt(s ast.Stmt) *IR {
 		}
 		return seqs(init, &IR{Op: "loop", L: l, A: body, Pos: t.pos(x)}, after)
 	case *ast.RangeStmt:
-		l := t.fresh()
+		l := t.freshLabel()
 		if label != "" {
 			t.labels[label] = [2]int{l, l}
 		}
@@ -815,7 +1170,7 @@ func (t *tr) stmt(s ast.Stmt) *IR {
 		t.contT = t.contT[:len(t.contT)-1]
 		return seq(pre, &IR{Op: "loop", L: l, A: body, Pos: t.pos(x)})
 	case *ast.SwitchStmt, *ast.TypeSwitchStmt, *ast.SelectStmt:
-		l := t.fresh()
+		l := t.freshLabel()
 		cl := 0
 		if len(t.contT) > 0 {
 			cl = t.contT[len(t.contT)-1]
@@ -964,6 +1319,41 @@ type deferredCall struct {
 	pos string
 }
 
+var allNamed []*types.Named // named non-interface types of the library
+var implCache = map[string][]string{}
+
+// implementers: methods `name` of the library's concrete types that implement interface type it
+func implementers(it types.Type, name string) []string {
+	iface, ok := it.Underlying().(*types.Interface)
+	if !ok {
+		return nil
+	}
+	key := typeKey(it) + "." + name
+	if v, ok := implCache[key]; ok {
+		return v
+	}
+	var out []string
+	for _, n := range allNamed {
+		var impl types.Type
+		if types.Implements(n, iface) {
+			impl = n
+		} else if types.Implements(types.NewPointer(n), iface) {
+			impl = types.NewPointer(n)
+		} else {
+			continue
+		}
+		obj, _, _ := types.LookupFieldOrMethod(impl, true, n.Obj().Pkg(), name)
+		if f, ok := obj.(*types.Func); ok {
+			out = append(out, funcKey(f))
+		}
+	}
+	sort.Strings(out)
+	implCache[key] = out
+	return out
+}
+
+var mutatingRecv = map[string]bool{} // methods (funcKey) that assign through a map/slice receiver
+var ctorName = regexp.MustCompile(`^(New|new|Make|make|init$|Init)`)
 var deferredCalls []deferredCall
 var panics []string
 var spawned = map[string]bool{}
@@ -1043,6 +1433,67 @@ func main() {
 		os.Exit(2)
 	}
 	sort.Slice(pkgs, func(i, j int) bool { return pkgs[i].PkgPath < pkgs[j].PkgPath })
+	for _, p := range pkgs {
+		rp := relPkg(p.PkgPath)
+		if strings.HasPrefix(rp, "examples") || strings.HasPrefix(rp, "perf") || strings.HasPrefix(rp, "macat") || strings.HasPrefix(rp, "test") || strings.HasPrefix(rp, "internal/test") {
+			continue
+		}
+		sc := p.Types.Scope()
+		for _, nm := range sc.Names() {
+			if tn, ok := sc.Lookup(nm).(*types.TypeName); ok {
+				if n, ok := tn.Type().(*types.Named); ok {
+					if _, isI := n.Underlying().(*types.Interface); !isI {
+						allNamed = append(allNamed, n)
+					}
+				}
+			}
+		}
+	}
+	// methods with a map or slice receiver that store through it
+	for _, p := range pkgs {
+		for _, f := range p.Syntax {
+			for _, d := range f.Decls {
+				fd, ok := d.(*ast.FuncDecl)
+				if !ok || fd.Body == nil || fd.Recv == nil || len(fd.Recv.List) == 0 || len(fd.Recv.List[0].Names) == 0 {
+					continue
+				}
+				rv := p.TypesInfo.Defs[fd.Recv.List[0].Names[0]]
+				if rv == nil {
+					continue
+				}
+				switch rv.Type().Underlying().(type) {
+				case *types.Map, *types.Slice:
+				default:
+					continue
+				}
+				mut := false
+				ast.Inspect(fd.Body, func(n ast.Node) bool {
+					switch y := n.(type) {
+					case *ast.AssignStmt:
+						for _, l := range y.Lhs {
+							if ix, ok := l.(*ast.IndexExpr); ok {
+								if id, ok := ix.X.(*ast.Ident); ok && p.TypesInfo.Uses[id] == rv {
+									mut = true
+								}
+							}
+						}
+					case *ast.CallExpr:
+						if id, ok := y.Fun.(*ast.Ident); ok && id.Name == "delete" && len(y.Args) > 0 {
+							if a, ok := y.Args[0].(*ast.Ident); ok && p.TypesInfo.Uses[a] == rv {
+								mut = true
+							}
+						}
+					}
+					return true
+				})
+				if mut {
+					if obj, _ := p.TypesInfo.Defs[fd.Name].(*types.Func); obj != nil {
+						mutatingRecv[funcKey(obj)] = true
+					}
+				}
+			}
+		}
+	}
 	nerr := 0
 	for _, p := range pkgs {
 		rp := relPkg(p.PkgPath)
@@ -1069,7 +1520,7 @@ func main() {
 				}
 				key := funcKey(obj)
 				nf := &fn{key: key, pkg: rp, acq: map[int]bool{}, root: ast.IsExported(fd.Name.Name)}
-				t := &tr{pkg: p, f: nf, labels: map[string][2]int{}}
+				t := &tr{pkg: p, f: nf, labels: map[string][2]int{}, ctor: fd.Recv == nil && ctorName.MatchString(fd.Name.Name)}
 				nf.pos = t.pos(fd)
 				fns[key] = nf
 				order = append(order, key)
@@ -1080,51 +1531,71 @@ func main() {
 	if nerr > 0 {
 		os.Exit(2)
 	}
-	// summaries: acq = locks taken (directly or in callees) that are not part of the entry assumption
-	for _, k := range order {
+	// roots are entered with nothing held: exported API, goroutine bodies, function values, literals, init
+	isRoot := func(k string) bool {
 		f := fns[k]
-		cs := map[string]bool{}
-		callsIn(f.raw, cs)
-		for c := range cs {
-			f.calls = append(f.calls, c)
-		}
-		sort.Strings(f.calls)
+		return f.root || spawned[k] || strings.Contains(k, "$")
 	}
+	// entry context of every other function: the mutexes held at *all* of its call sites (checked on the Lean side:
+	// each call site is expanded to unlock;lock of the callee's entry set, which the balance checker only accepts if
+	// they are held there, and the callee must return with exactly its entry set)
+	top := map[string]bool{} // not yet constrained by any call site
+	for _, k := range order {
+		if !isRoot(k) {
+			top[k] = true
+		}
+	}
+	for iter := 0; iter < 20; iter++ {
+		changed := false
+		for _, k := range order {
+			f := fns[k]
+			if top[k] {
+				continue
+			}
+			walk(f.raw, st{held: append([]int{}, f.entry...)}, func(n *IR, s st) {
+				if n.Op != "call" {
+					return
+				}
+				g, ok := fns[n.Call]
+				if !ok || isRoot(n.Call) {
+					return
+				}
+				held := append([]int{}, s.held...)
+				sort.Ints(held)
+				if top[n.Call] {
+					delete(top, n.Call)
+					g.entry = held
+					changed = true
+					return
+				}
+				var inter []int
+				for _, m := range g.entry {
+					if has(held, m) {
+						inter = append(inter, m)
+					}
+				}
+				if len(inter) != len(g.entry) {
+					g.entry = inter
+					changed = true
+				}
+			})
+		}
+		if !changed {
+			break
+		}
+	}
+	for k := range top {
+		fns[k].entry = nil // never called statically: checked as if entered with nothing held
+	}
+	// acq: locks a function takes itself (directly or through callees), beyond its entry set
 	for iter := 0; iter < 12; iter++ {
 		changed := false
 		for _, k := range order {
 			f := fns[k]
 			f.unsupExp = nil
-			body := simplify(expand(f.raw, f))
-			f.body = body
-			// entry assumption: a function that is not balanced from nothing but is from one of the locks it releases
-			if !spawned[k] && !strings.Contains(k, "$") {
-				if verdict(body, nil) != "" {
-					cand := map[int]bool{}
-					locksIn(body, "unlock", cand)
-					ids := []int{}
-					for m := range cand {
-						ids = append(ids, m)
-					}
-					sort.Ints(ids)
-					found := []int(nil)
-					for _, m := range ids {
-						if verdict(body, []int{m}) == "" {
-							found = []int{m}
-							break
-						}
-					}
-					if fmt.Sprint(found) != fmt.Sprint(f.entry) {
-						f.entry = found
-						changed = true
-					}
-				} else if f.entry != nil {
-					f.entry = nil
-					changed = true
-				}
-			}
+			f.body = simplify(expand(f.raw, f))
 			acq := map[int]bool{}
-			locksIn(body, "lock", acq)
+			locksIn(f.body, "lock", acq)
 			for _, m := range f.entry {
 				delete(acq, m)
 			}
@@ -1136,6 +1607,74 @@ func main() {
 		if !changed {
 			break
 		}
+	}
+	// accesses with the locks held at them
+	type access struct {
+		fn, pos string
+		w       bool
+		held    []int
+	}
+	byField := map[int][]access{}
+	visitOrder := map[string][]int{} // per function: fields in the order the walk meets them
+	for _, k := range order {
+		f := fns[k]
+		seen := map[string]bool{}
+		walk(f.body, st{held: append([]int{}, f.entry...)}, func(n *IR, s st) {
+			if n.Op != "acc" {
+				return
+			}
+			visitOrder[k] = append(visitOrder[k], n.F)
+			h := append([]int{}, s.held...)
+			sort.Ints(h)
+			key := fmt.Sprint(n.F, n.W, h, n.Pos)
+			if seen[key] {
+				return
+			}
+			seen[key] = true
+			byField[n.F] = append(byField[n.F], access{k, n.Pos, n.W, h})
+		})
+	}
+	var races []string
+	fids := []int{}
+	for id := range byField {
+		fids = append(fids, id)
+	}
+	sort.Ints(fids)
+	for _, id := range fids {
+		as := byField[id]
+		anyW := false
+		for _, a := range as {
+			anyW = anyW || a.w
+		}
+		if !anyW && !atomicFields[id] {
+			continue
+		}
+		common := append([]int{}, as[0].held...)
+		for _, a := range as[1:] {
+			var c2 []int
+			for _, m := range common {
+				if has(a.held, m) {
+					c2 = append(c2, m)
+				}
+			}
+			common = c2
+		}
+		if len(common) > 0 {
+			continue
+		}
+		// describe: unprotected accesses
+		var bare, prot []string
+		for _, a := range as {
+			d := fmt.Sprintf("%s %s at %s holding %s", map[bool]string{true: "write", false: "read"}[a.w], a.fn, a.pos, names(a.held))
+			if len(a.held) == 0 {
+				bare = append(bare, d)
+			} else {
+				prot = append(prot, d)
+			}
+		}
+		sort.Strings(bare)
+		sort.Strings(prot)
+		races = append(races, fmt.Sprintf("%s: no common lock over %d accesses; without any lock: %s; others: %s", fieldName[id], len(as), strings.Join(bare, "; "), strings.Join(first(prot, 3), "; ")))
 	}
 	// deferred calls must not touch locks
 	for _, dc := range deferredCalls {
@@ -1212,6 +1751,46 @@ func main() {
 		return strings.Join(xs, ", ")
 	}()))
 	sb.WriteString(fmt.Sprintf("\n/-- functions translated / with lock-relevant bodies -/\ndef nFunctions : Nat := %d\ndef nRelevant : Nat := %d\n", nfn, nrel))
+	fl := []int{}
+	for id := range fieldName {
+		fl = append(fl, id)
+	}
+	sort.Ints(fl)
+	sb.WriteString("\n/-- struct fields, named by declaring type -/\ndef fieldNames : List (Nat × String) := [")
+	for i, id := range fl {
+		if i > 0 {
+			sb.WriteString(", ")
+		}
+		sb.WriteString(fmt.Sprintf("(%d, %q)", id, fieldName[id]))
+	}
+	sb.WriteString("]\n")
+	al := []string{}
+	for id := range atomicFields {
+		al = append(al, fmt.Sprint(id))
+	}
+	sort.Strings(al)
+	sb.WriteString("\n/-- fields accessed through sync/atomic -/\ndef atomicFields : List Nat := [" + strings.Join(al, ", ") + "]\n")
+	racy := map[string]bool{}
+	for _, r := range races {
+		racy[strings.SplitN(r, ":", 2)[0]] = true
+	}
+	un := []string{}
+	seenF := map[int]bool{}
+	for _, p := range pk {
+		for _, name := range byPkg[p] {
+			var idx int
+			fmt.Sscanf(name, "f%d", &idx)
+			for _, fid := range visitOrder[order[idx]] {
+				if !seenF[fid] {
+					seenF[fid] = true
+					if racy[fieldName[fid]] {
+						un = append(un, fmt.Sprintf("%q", fieldName[fid]))
+					}
+				}
+			}
+		}
+	}
+	sb.WriteString("\n/-- fields the generator's own lockset pass flags, in field-id order (the Lean side recomputes the list with the verified functions and must arrive at the same one) -/\ndef expectedUnsafe : List String := [" + strings.Join(un, ", ") + "]\n")
 	sort.Strings(panics)
 	pq := []string{}
 	for _, u := range panics {
@@ -1240,10 +1819,21 @@ func main() {
 	var rep strings.Builder
 	for _, d := range diags {
 		fmt.Printf("irgen: UNBALANCED %s (%s): %s\n", d.key, d.pos, d.why)
-		rep.WriteString(fmt.Sprintf("{\"function\": %q, \"at\": %q, \"why\": %q}\n", d.key, d.pos, d.why))
+		rep.WriteString(fmt.Sprintf("{\"kind\": \"unbalanced\", \"function\": %q, \"at\": %q, \"why\": %q}\n", d.key, d.pos, d.why))
+	}
+	for _, id := range fids {
+		for _, a := range byField[id] {
+			rep.WriteString(fmt.Sprintf("{\"kind\": \"access\", \"field\": %q, \"at\": %q, \"function\": %q, \"write\": %v, \"held\": %q}\n", fieldName[id], a.pos, a.fn, a.w, names(a.held)))
+		}
+	}
+	for _, r := range races {
+		rep.WriteString(fmt.Sprintf("{\"kind\": \"unprotected\", \"field\": %q, \"detail\": %q}\n", strings.SplitN(r, ":", 2)[0], r))
 	}
 	for _, u := range unsup {
 		fmt.Println("irgen: UNSUPPORTED", u)
+	}
+	for _, r := range races {
+		fmt.Println("irgen: UNPROTECTED", r)
 	}
 	if *report != "" {
 		_ = os.WriteFile(*report, []byte(rep.String()), 0o644)
